@@ -11,16 +11,16 @@ import (
 )
 
 func init() {
-	register(&Rule{ID: "E-RECURSION-DEPTH", Props: []string{"C03", "C09"}, Floor: 3,
+	register(&Rule{ID: "E-RECURSION-DEPTH", Props: []string{"C03", "C09"}, Floor: 1,
 		Doc: "every recursive cycle of API-reachable repository functions either carries a depth guard (a counter compared with a limit whose failing edge returns an error) or is recorded as a finding: Go cannot recover from stack exhaustion, so unbounded recursion on attacker-sized nesting is a fatal crash",
 		Run: ruleERecursionDepth})
-	register(&Rule{ID: "E-STRUCT-RECURSION", Props: []string{"C09"}, Floor: 100,
+	register(&Rule{ID: "E-STRUCT-RECURSION", Props: []string{"C09"}, Floor: 54,
 		Doc: "every recursive call of the evaluator descends: evaluate is called with a child of the node being evaluated (a field, an element of its argument list or of its binding map) or with the node parameter a helper received from such a call; equal recurses on members of its operands; the scope lookup recurses on the parent scope",
 		Run: ruleEStructRecursion})
 	register(&Rule{ID: "P-RECURSE-CONSUME", Props: []string{"C09"}, Floor: 5,
 		Doc: "in the parser's recursive cycle the calls that are not preceded (dominated) by the consumption of a token form no cycle: every round trip through the recursive descent consumes at least one token",
 		Run: rulePRecurseConsume})
-	register(&Rule{ID: "P-LEX-PROGRESS", Props: []string{"C09", "C04"}, Floor: 8,
+	register(&Rule{ID: "P-LEX-PROGRESS", Props: []string{"C09", "C04"}, Floor: 3,
 		Doc: "every loop of the lexer and of the literal decoders makes progress on every iteration: each back edge carries a position (or remaining-text) variable changed since the loop header",
 		Run: rulePLexProgress})
 	register(&Rule{ID: "P-ERRCHECK", Props: []string{"C04", "C08", "C03", "C16"}, Floor: 100,
